@@ -46,6 +46,7 @@ type sigSpec struct {
 	PadR     int    `json:"pad_r"`
 	PadS     int    `json:"pad_s"`
 	Trail    int    `json:"trail"`
+	Target   int    `json:"target,omitempty"` // when > 0: the garbage is sized so that the signature (with type byte) has exactly this length
 	Seed     uint64 `json:"seed"`
 	PushEnc  int    `json:"push_enc"` // encoding of the push in scriptSig
 	Key      int    `json:"key"`      // position (in the script's key list) of the signing key
@@ -166,7 +167,13 @@ func checkSpend(c spendCase) (info string, err error) {
 		if sp.Canon {
 			der = ec.EncodeDER(r, s)
 		} else {
-			der = derSig(r, s, sp.PadR, sp.PadS, sp.Trail, sp.Seed)
+			trail := sp.Trail
+			if sp.Target > 0 {
+				if trail = sp.Target - 1 - len(derSig(r, s, sp.PadR, sp.PadS, 0, 0)); trail < 0 {
+					trail = 0
+				}
+			}
+			der = derSig(r, s, sp.PadR, sp.PadS, trail, sp.Seed)
 			if pr, ps, ok := ec.ParseDERLax(der); !ok || pr.Cmp(r) != 0 || ps.Cmp(s) != 0 {
 				return "", fmt.Errorf("harness: padded signature does not parse back under Core's lax rules")
 			}
@@ -309,7 +316,10 @@ func genSigSpec(t *rapid.T, nkeys int) sigSpec {
 	} else {
 		sp.HashType = rapid.SampledFrom([]byte{1, 1, 1, 2, 3, 0x81, 0x82, 0x83}).Draw(t, "ht_named")
 	}
-	switch rapid.IntRange(0, 5).Draw(t, "sig_size") {
+	switch rapid.IntRange(0, 6).Draw(t, "sig_size") {
+	case 6: // exactly at the push-encoding boundaries
+		sp.PadR = rapid.IntRange(0, 1).Draw(t, "pad_r")
+		sp.Target = rapid.SampledFrom([]int{75, 76, 77, 255, 256, 257, 520}).Draw(t, "target_len")
 	case 0, 1: // strict DER, 70..73 bytes
 		sp.Canon = true
 	case 2: // short but padded (< 76 bytes total)
@@ -411,7 +421,9 @@ func sigLenClass(c *spendCase) string {
 	max := 0
 	for _, sp := range c.Sigs {
 		l := 72
-		if !sp.Canon {
+		if sp.Target > 0 {
+			l = sp.Target
+		} else if !sp.Canon {
 			l = 6 + 33 + 33 + sp.PadR + sp.PadS + sp.Trail
 		}
 		if l > max {
@@ -435,7 +447,7 @@ func TestECDSASpend(t *testing.T) {
 		if c.Wrap == "p2sh" {
 			probe := make([][]byte, len(c.Sigs))
 			for i, sp := range c.Sigs {
-				probe[i] = make([]byte, 6+33+33+sp.PadR+sp.PadS+sp.Trail+1)
+				probe[i] = make([]byte, 6+33+33+sp.PadR+sp.PadS+sp.Trail+sp.Target+1)
 			}
 			if s, _ := c.build(probe); len(s) > 500 {
 				c.Wrap = "bare"
@@ -444,6 +456,12 @@ func TestECDSASpend(t *testing.T) {
 		r.Case(c)
 		r.Class("wrap=" + c.Wrap)
 		r.Class(sigLenClass(&c))
+		for _, sp := range c.Sigs {
+			if sp.Target > 0 {
+				r.Class("sig_at_push_boundary")
+				break
+			}
+		}
 		nEmbed, nNonCanon := 0, 0
 		for _, it := range append(append([]item{}, c.Pre...), c.Post...) {
 			if it.Kind == "embed" {
